@@ -118,6 +118,8 @@ func rTri(t int) RV {
 type interp struct {
 	tables  []Table
 	negZero bool // a decimal product was zero with a negative factor (the engine's -0.00)
+	exceptEmptyStr bool // the left input of an EXCEPT contains the empty string
+	nullInEmpty    bool // NULL IN (correlated subquery that returned no row)
 }
 
 func (in *interp) inList(x RV, ys []RV) (int, error) {
@@ -304,6 +306,9 @@ func (in *interp) expr(e *Expr, env [][]RV) (RV, error) {
 		if err != nil {
 			return rNull, err
 		}
+		if x.Kind == 0 && len(rows) == 0 && escapesQ(e.Q, 0) {
+			in.nullInEmpty = true
+		}
 		var ys []RV
 		for _, r := range rows {
 			if len(r) == 0 {
@@ -460,6 +465,15 @@ func (in *interp) query(q *Query, env [][]RV) ([][]RV, error) {
 		R, err := in.query(q.R, env)
 		if err != nil {
 			return nil, err
+		}
+		if q.SOp == "except" {
+			for _, l := range L {
+				for _, v := range l {
+					if v.Kind == 2 && v.Str == "" {
+						in.exceptEmptyStr = true
+					}
+				}
+			}
 		}
 		return setOp(q.SOp, q.All, L, R), nil
 	case "order":
